@@ -118,3 +118,12 @@ func combos(n, k int) [][]int {
 	rec(0, nil)
 	return out
 }
+
+func cloneEdKeys(in []eddsakeygen.LocalPartySaveData) []eddsakeygen.LocalPartySaveData {
+	out := make([]eddsakeygen.LocalPartySaveData, len(in))
+	for i := range in {
+		out[i] = in[i]
+		out[i].Xi = new(big.Int).Set(in[i].Xi)
+	}
+	return out
+}
